@@ -95,7 +95,7 @@ pub fn main(args: Args) {
         run.finish(&[]);
     }
 
-    let n = args.budget("cases", 140, 4000);
+    let n = args.budget("cases", 147, 4200);
     for (arm, var) in ARMS.iter() {
         if let Some(only) = args.get("arm")
             && only != *arm
@@ -138,6 +138,8 @@ pub fn main(args: Args) {
         ("instances_with_constant_tied_ports", 15),
         ("compound_cells_in_flattened_children", 15),
         ("ao22_cells_in_flattened_children", 3),
+        ("frozen_registers", 6),
+        ("frozen_ff_feeds_ff_directly", 8),
     ]);
 }
 
@@ -212,6 +214,15 @@ pub fn report(run: &Run, o: &Opts, i: u64, r: Result<CaseOut, PanicInfo>) {
                 let key = if e.starts_with("Malformed") { "gateval_malformed_netlist" } else { "gateval_unsupported_shape" };
                 run.count(key, 1);
                 run.seen("gateval_refusals", &e.chars().take(100).collect::<String>());
+                if e.contains("used net without driver") {
+                    // the netlist reads a net nothing drives: whatever it computes there, it is not the RTL's value
+                    run.violation(
+                        &format!("netlist-reads-undriven-net:{}", out.kind),
+                        &format!("case {i} ({}) {arm}/{}/{}: {e}", out.kind, c.lib, c.ram_cfg),
+                        json!({"case_index": i, "arm": arm, "library": c.lib, "ram_config": c.ram_cfg, "cycles": o.cycles, "kind": out.kind,
+                               "detail": e, "netlist": {"cells": c.info.cells, "ffs": c.info.ffs, "ram_blocks": c.info.rams}, "design": d.text}),
+                    );
+                }
             }
             Some(Ok(g)) => {
                 evaluated += 1;
@@ -277,6 +288,11 @@ pub fn report(run: &Run, o: &Opts, i: u64, r: Result<CaseOut, PanicInfo>) {
             run.count("instances_with_constant_tied_ports", out.const_tied as i64);
             run.count("compound_cells_in_flattened_children", out.child_compound.0 as i64);
             run.count("ao22_cells_in_flattened_children", out.child_compound.1 as i64);
+        }
+        if arm == "default" {
+            for (name, n) in &out.counters {
+                run.count(name, *n);
+            }
         }
         if arm == "default" {
             run.count("programs", 1);
